@@ -116,7 +116,7 @@ def check_program(L: harness.Loaded, prog: Dict[str, Any], part: Part) -> None:
                                f"service(...) {None if pdu3 is None else pdu3.hex()} vs Request.encode {pdu.hex()}")
             # DiagLayer.decode of the service's own request (needs a constant prefix for the dispatch)
             if exc is None and prog["params"] and prog["params"][0]["t"] == "CODED-CONST" and prog["tags"][0] == "prog" and \
-                    prog["params"][0].get("byte") in (None, 0):
+                    prog["params"][0].get("byte") in (None, 0) and "CNV" not in prog["tags"][1].split("+")[:1]:
                 try:
                     _, ref_out, e = L.interp.encode(prog["pid"], values)
                 except (refodx.Reject, refodx.DontCare):
